@@ -17,8 +17,10 @@ package main
 import (
 	"encoding/hex"
 	"fmt"
+	"math/rand"
 	"runtime"
 	"strconv"
+	"sync"
 	"time"
 	"unicode/utf8"
 
@@ -28,6 +30,7 @@ import (
 	"github.com/mgtv-tech/redis-GunYu/pkg/redis"
 	"github.com/mgtv-tech/redis-GunYu/pkg/redis/checkpoint"
 	cluster "github.com/mgtv-tech/redis-GunYu/pkg/redis/client/cluster"
+	"github.com/mgtv-tech/redis-GunYu/pkg/util"
 
 	"verif/internal/harness"
 	"verif/internal/ref"
@@ -204,9 +207,71 @@ func main() {
 	}
 	// ---- 3. PRNG families ------------------------------------------------------------
 	prngFamilies()
+	// ---- 4. the calling pattern of the checkpoint-key search ---------------------------
+	if r.WantCase("inplace-search") {
+		guard("inplace-search", inplaceSearch)
+	}
 	r.Assume("choseKeyInSlots is unexported and has no hook: covered only through redis.KeyToSlot on the key family it evaluates (checkpoint-suffix)")
 	r.Assume("cluster-client routing is observed at cluster.GetSlot, the function getNodeByKey calls; the node a command is sent to is C19's concern")
 	r.Exit()
+}
+
+// inplaceSearch: the checkpoint-key search of syncer/syncer.go (choseKeyInSlots → pickSuffixDfs)
+// asks for the slot of candidate after candidate held in ONE buffer that it rewrites in place at
+// constant length, handing KeyToSlot a string that aliases the buffer (util.BytesToString).  The
+// slot of every candidate must be the slot of its bytes at the moment of the call, whatever was
+// asked before (same address, same length, other content).  Odometer walks like the search's, from
+// one and from several goroutines (each with its own buffer).
+func inplaceSearch() {
+	walk := func(prefix string, letters, steps int, seed int64) {
+		rng := rand.New(rand.NewSource(seed))
+		buf := make([]byte, len(prefix)+letters)
+		copy(buf, prefix)
+		for i := len(prefix); i < len(buf); i++ {
+			buf[i] = 'a'
+		}
+		for n := 0; n < steps; n++ {
+			// next candidate: odometer step on the last letters, sometimes a jump further left
+			pos := len(buf) - 1
+			if rng.Intn(8) == 0 {
+				pos = len(prefix) + rng.Intn(letters)
+			}
+			for ; pos >= len(prefix); pos-- {
+				if buf[pos] < 'z' {
+					buf[pos]++
+					break
+				}
+				buf[pos] = 'a'
+			}
+			want := ref.HashSlot(buf)
+			got := int(redis.KeyToSlot(util.BytesToString(buf)))
+			r.Eval(1)
+			r.Count("keys_inplace-search", 1)
+			if got != want {
+				w := show(append([]byte(nil), buf...))
+				w["impl"], w["got"], w["want"], w["step"] = "KeyToSlot", got, want, n
+				w["pattern"] = "string aliasing a buffer that is rewritten in place between calls (util.BytesToString), as choseKeyInSlots does"
+				r.Violation("KeyToSlot|inplace-search|stale-answer", "inplace-search",
+					fmt.Sprintf("KeyToSlot(candidate) = %d but HASH_SLOT(candidate) = %d for the candidate the buffer held at the call (step %d of an in-place search)", got, want, n), w)
+				return
+			}
+		}
+	}
+	for _, pre := range []string{config.CheckpointKey + "-", "cp-", "{", "x{y}-"} {
+		for _, letters := range []int{1, 3, 20} {
+			walk(pre, letters, r.N(4000, 200000), int64(len(pre)*31+letters))
+		}
+	}
+	var wg sync.WaitGroup
+	for g := 0; g < 8; g++ {
+		wg.Add(1)
+		go func(g int) {
+			defer wg.Done()
+			walk(fmt.Sprintf("%s-g%d-", config.CheckpointKey, g), 20, r.N(4000, 100000), int64(1000+g))
+		}(g)
+	}
+	wg.Wait()
+	r.Distinct("inplace-search|aliased-buffer|sequential+8-goroutines")
 }
 
 // guard turns a panic of the code under test into an inconclusive verdict (the statement
